@@ -12,6 +12,7 @@ CLASSES = {
     "UndirectedGraph": {"mro": ["UndirectedGraph", "Graph"], "file": "pgmpy/base/UndirectedGraph.py"},
     "Independencies": {"mro": ["Independencies"], "file": "pgmpy/independencies/Independencies.py"},
     "IndependenceAssertion": {"mro": ["IndependenceAssertion"], "file": "pgmpy/independencies/Independencies.py"},
+    "DynamicBayesianNetwork": {"mro": ["DynamicBayesianNetwork", "DAG", "DiGraph"], "file": "pgmpy/models/DynamicBayesianNetwork.py"},
     "MarkovNetwork": {"mro": ["MarkovNetwork", "UndirectedGraph", "Graph"], "file": "pgmpy/models/MarkovNetwork.py"},
     "Graph": {"mro": ["Graph"], "file": None},
     "DiGraph": {"mro": ["DiGraph"], "file": None},
@@ -36,12 +37,12 @@ def mem_or_empty(c, esort=Atom):
 
 
 def graph_snapshot(g):
-    return {"_E": g.fields["_E"], "_nodes": g.fields["_nodes"], "latents": g.fields["latents"].mem if "latents" in g.fields else None}
+    return {"@E": g.fields["@E"], "@nodes": g.fields["@nodes"], "latents": g.fields["latents"].mem if "latents" in g.fields else None}
 
 
 def graph_unchanged(g, old):
     a, b = fresh("a", Atom), fresh("b", Atom)
-    f = [z3.ForAll([a, b], g.fields["_E"][a, b] == old["_E"][a, b]), z3.ForAll([a], g.fields["_nodes"][a] == old["_nodes"][a])]
+    f = [z3.ForAll([a, b], g.fields["@E"][a, b] == old["@E"][a, b]), z3.ForAll([a], g.fields["@nodes"][a] == old["@nodes"][a])]
     if old.get("latents") is not None:
         f.append(z3.ForAll([a], g.fields["latents"].mem[a] == old["latents"][a]))
     return z3.And(*f)
